@@ -1,6 +1,7 @@
 import SamVerif.Model.CompileGate
 import SamVerif.Model.MatchLower
 import SamVerif.Model.EnumRepr
+import SamVerif.Model.BoundCheck
 import SamVerif.Model.OptKernel
 import SamVerif.Model.Backends
 import Driver.Util
@@ -8,6 +9,7 @@ import Driver.Util
   gate ENTRY_PRESENT PARSE_ERRS CHECK_ERRS     -> lowered | rejected | invalid-entry
   fold OP a b | merge OUTER INNER c1 c2 | trip G i0 step bound      (as drv-c02)
   str HEX(raw literal inside, UTF-8)           -> rejected | closed | open
+  bound BOUNDED SATISFIED                      -> errors=<n> at=<positions> (validate_type_arguments)
   layout T n <def>*                            -> enum layouts + LIR erasure (see runLayoutLine)
   match T n <def>* Y t A n <pat>* V n <val>*   -> typed=b nodup=b crash=b acc=b ends=a0,fb,ft,…
     <def> ::= P | E cls n (name k type*)* | S n (name type)*
@@ -306,6 +308,12 @@ def step (_ : Unit) (line : String) : Unit × String :=
         else "rejected"
     | "match" :: ts => (runMatchLine ts).getD "bad-line"
     | "layout" :: ts => (runLayoutLine ts).getD "bad-line"
+    | ["bound", bs, ss] =>
+      -- bs: per type parameter `1` = bounded, `0` = unbounded; ss: `1` = argument satisfies the bound
+      let params : List (Option Nat) := bs.toList.map (fun c => if c == '1' then some 1 else none)
+      let args : List Nat := ss.toList.map (fun c => if c == '1' then 1 else 0)
+      let errs := BoundCheck.validate (fun a b => a == b) params args
+      "errors=" ++ toString errs.length ++ " at=" ++ (if errs.isEmpty then "-" else ",".intercalate (errs.map toString))
     | _ => "bad-op"
   ((), ans)
 
